@@ -1,9 +1,9 @@
 (* C19 - in-memory ordered structures behave as ordered maps and priority queues, for every operation sequence.
    Statements only; proofs are in Proofs/C19_*.v. *)
 From Coq Require Import Sorted Permutation.
-From RV Require Import Base.Bytes Model.Search Model.Heap Model.PPQ Model.ZipTree Model.SortedCache Model.MergeSort.
+From RV Require Import Base.Bytes Model.Search Model.Heap Model.PPQ Model.ZipTree Model.SortedCache Model.MergeSort Model.DsSet Model.SortedMap.
 From RV Require Import Proofs.C19_Search Proofs.C19_Heap Proofs.C19_Hist Proofs.C19_PPQ Proofs.C19_ZipTree Proofs.C19_SortedCache.
-From RV Require Proofs.C19_Merge.
+From RV Require Proofs.C19_Merge Proofs.C19_DsSet Proofs.C19_SortedMap.
 Open Scope N_scope.
 
 (* ================= SearchUnique ================= *)
@@ -215,3 +215,32 @@ Theorem cache_size_before_repair_refuted :
   exists ops, let c := fold_left cstep_old ops (cache_new 10) in byte_size c <> sum_len (items c).
 Proof. exact cache_push_old_refuted. Qed.
 Print Assumptions cache_size_before_repair_refuted.
+
+(* ================= insertion-ordered set ================= *)
+(* after any sequence of Add / Without: Slice is the duplicate-free first-insertion-order reference, Has is membership *)
+Theorem set_semantics : forall ops,
+  let s := fold_left sstep ops set_empty in
+  let r := fold_left sref_step ops [] in
+  set_slice s = r /\ NoDup r /\ (forall v, set_has v s = true <-> In v r) /\ set_size s = length r.
+Proof. exact set_history. Qed.
+Print Assumptions set_semantics.
+
+Theorem set_reference_is_a_set : forall ref vs v,
+  (In v (ref_add ref vs) <-> In v ref \/ In v vs) /\ (In v (ref_without ref vs) <-> In v ref /\ ~ In v vs) /\
+  (exists t, ref_add ref vs = ref ++ t).
+Proof. intros ref vs v. split; [apply C19_DsSet.ref_add_in|split]; [apply C19_DsSet.ref_without_in|apply C19_DsSet.ref_add_prefix]. Qed.
+Print Assumptions set_reference_is_a_set.
+
+(* ================= sorted map ================= *)
+(* after any sequence of Set / Delete / ordered reads: All/Keys/Values list the sorted association-list reference,
+   Get is its lookup, Set/Delete report novelty/presence, iteration is strictly increasing in the key *)
+Theorem sorted_map_semantics : forall ops,
+  let s := fold_left mstep ops smap_empty in
+  let r := fold_left mref_step ops [] in
+  snd (smap_all s) = r /\ snd (smap_keys s) = map fst r /\ snd (smap_values s) = map snd r /\
+  (forall k, smap_get k s = rm_get k r) /\ smap_size s = length r /\
+  StronglySorted (fun a b => bcmp (fst a) (fst b) = Lt) r /\
+  (forall k v, snd (smap_set k v s) = match rm_get k r with None => true | Some _ => false end) /\
+  (forall k, snd (smap_delete k s) = match rm_get k r with None => false | Some _ => true end).
+Proof. exact smap_history. Qed.
+Print Assumptions sorted_map_semantics.
